@@ -86,6 +86,10 @@ pub struct SimCtrl {
 }
 
 thread_local! {
+    pub static DEBUG_LOG: std::cell::RefCell<Vec<String>> = const { std::cell::RefCell::new(Vec::new()) };
+}
+
+thread_local! {
     static ACTOR: Cell<Option<(usize, u64)>> = const { Cell::new(None) };
 }
 
@@ -667,8 +671,8 @@ impl xs::verif::Controller for SimCtrl {
         if idx < g.actors.len() {
             g.actors[idx].state = AState::Done;
         }
-        g.activity += 1;
         if g.active && g.epoch == epoch {
+            g.activity += 1;
             g.running = g.running.saturating_sub(1);
             self.sched_cv.notify_all();
         }
@@ -707,7 +711,9 @@ impl xs::verif::Controller for SimCtrl {
         }
         let c = g.seqs.entry(name).or_insert(0);
         *c += 1;
-        *c
+        let v = *c;
+
+        v
     }
 
     fn note(&self, site: &'static str, text: &str) {
